@@ -29,7 +29,7 @@ else
   rc=$?
   grep -E "SUMMARY|violation at|VIOLATION|INFRA" /tmp/unfix_find.log | cut -c1-260
   f=$(grep -o "replay=[^ ]*" /tmp/unfix_find.log | head -1 | cut -d= -f2)
-  if [ $rc -eq 1 ] && [ -n "$f" ] && grep -q "\"class\": \"$cls\"" "$f" && grep -q "\"site\": \"$site\"" "$f"; then
+  if [ $rc -eq 1 ] && [ -n "$f" ] && grep -q "\"class\": \"$cls\"" "$f" && grep -q "\"site\": \"[^\"]*$site" "$f"; then
     python3 - "$f" "$out" "$(basename "$fix")" <<'PY'
 import json,sys
 r=json.load(open(sys.argv[1])); r["reproduces_with_fix_undone"]=sys.argv[3]
